@@ -15,6 +15,8 @@ CONSTANTS
   ALLHITS = FALSE
   NSAVE = 0
   FRESH = TRUE
+  NRESET = 0
+  SHARE = FALSE
 INVARIANT GaRange
 INVARIANT AcceptedScore
 INVARIANT GrainCap
